@@ -28,15 +28,15 @@ ASSUMPTIONS = _c05.ASSUMPTIONS
 TRUSTED = _c05.TRUSTED
 REQUIRED_THEOREMS = ['OpusProps.C02.' + t for t in ('genToc_roundtrip', 'lowBudget_valid', 'no_internal_error',
                                                     'repack_output_parses', 'encode_wellformed', 'redundancy_mirror_silk',
-                                                    'redundancy_mirror_hybrid_partial')]
+                                                    'redundancy_mirror_hybrid_cbr', 'hybrid_redundancy_parse')]
 REQUIRED_THEOREMS += ['OpusProps.EndToEnd.' + t for t in ('encode_decode_duration', 'encode_decode_duration_padded',
                                                            'encode_decode_duration_unpadded')]
 UNPROVED = [
-            'redundancy_mirror for hybrid mode in full: proved as redundancy_mirror_hybrid_partial under C08 lock-step plus one '
-            'contract on celt_encode_with_ec in hybrid VBR mode (min_allowed, celt_encoder.c:2303-2318: ec_tell_before + 37 <= '
-            '8*(ret + redundancy_bytes) and ec_tell <= 8*ret); hybrid CBR needs none (hybrid_cbr_gate); SILK-only is proved in '
-            'full (redundancy_mirror_silk: the corner redundancy_bytes = 2 / 0-bit flag / ec_tell = 0 mod 8 is arithmetically '
-            'impossible, silk_gate_agrees)',
+            'redundancy_mirror for hybrid mode with VBR on: NOT proved. The mirror is proved for SILK-only (redundancy_mirror_silk) '
+            'and for hybrid with VBR off (redundancy_mirror_hybrid_cbr), both on the payload length the frame skeleton itself emits and '
+            'with no decoder-side hypothesis; in hybrid VBR the frame length depends on what celt_encode_with_ec returns, and the '
+            'decoder gate needs its min_allowed (celt_encoder.c:2303-2318: ec_tell_before + 37 <= 8*(ret + redundancy_bytes)) and '
+            'ec_tell <= 8*ret, which are not contracts of the skeleton; hybrid_redundancy_parse is only the decoder-side evaluation',
             'lowBudget_valid for the CBR-padded ToC-only packet is covered by encode_wellformed through the repacketiser '
             'contract; the statement proved by exhaustive kernel evaluation is about the unpadded packet']
 
